@@ -37,6 +37,15 @@ def _cdrfile_common(ctx, res, replay_ops, want_spec):
         kind = t[1]
         if kind == "slowdb":
             continue
+        if kind == "conc":
+            # a well-formed file written by 8 goroutines at once, 40 times each: every copy must equal the file written alone
+            res.evaluations += 1
+            res.dist["written-concurrently"] += 1
+            res.traces_validated += 1
+            if not im.startswith("ok ") or im != mo:
+                res.violation("oracle", "%s: a well-formed file written while other goroutines write theirs differs from the file written alone" %
+                              ("C15" if want_spec else "C14"), [op, "# impl:  " + im[:600], "# model: " + mo[:600]])
+            continue
         if kind != "rt":
             # outside the property's domain (non-well-formed structures, damaged files):
             # model fidelity is reported, it does not decide the property
